@@ -9,6 +9,37 @@ def tieOf (j : Json) : Tie :=
 
 def rats (l : List Rat) : Json := Json.arr (l.map ratToJson).toArray
 
+def modeOf (j : Json) : Option SigMode :=
+  match (getStr j "mode").toOption with
+  | some "hard" => some .hard | some "smooth" => some .smooth | some "real" => some .real | _ => none
+
+/-- the piecewise-linear surrogates need no oracle: the real sigmoid is never evaluated here -/
+def noSigma : Rat → Rat := fun _ => 0
+
+def getRows (j : Json) (k : String) : Except String (List (List Rat)) := do
+  let a ← (← j.getObjVal? k).getArr?
+  a.toList.mapM fun r => do
+    let l ← r.getArr?
+    l.toList.mapM ratOfJson
+
+def reluCfgOf (cfg : Json) : Except String ReluCfg := do
+  let sl ← cfg.getObjVal? "slope_log"
+  let b ← getInt cfg "bits"
+  let i ← getInt cfg "integer"
+  let slo : Option Nat := match sl with | .null => none | v => (v.getNat?).toOption
+  let up ← getOptRat cfg "upper"
+  let qc : Bool := match (getBool cfg "qclip").toOption with | some v => v | none => true
+  pure { bits := b, integer := i, slopeLog := slo, upper := up, qclip := qc }
+
+/-- `yx`: outputs computed from the INPUTS under the given mode (hard / smooth only) -/
+def yxOf (j : Json) (f : SigMode → Rat → Rat) : Except String Json := do
+  match modeOf j, (j.getObjVal? "xs").toOption with
+  | some .real, _ => pure Json.null
+  | some m, some _ => do
+    let xs ← getRatList j "xs"
+    pure (rats (xs.map (f m)))
+  | _, _ => pure Json.null
+
 def handle (j : Json) : Except String Json := do
   let op ← getStr j "op"
   let t := tieOf j
@@ -26,22 +57,54 @@ def handle (j : Json) : Except String Json := do
       ("max", ratToJson (qbitsMax c)),
       ("range", match qbitsRange c with | some l => rats l | none => Json.null)]
   | "qrelu" =>
-    let sl ← cfg.getObjVal? "slope_log"
-    let b ← getInt cfg "bits"
-    let i ← getInt cfg "integer"
-    let slo : Option Nat := match sl with | .null => none | v => (v.getNat?).toOption
-    let c : ReluCfg := { bits := b, integer := i, slopeLog := slo }
+    let c ← reluCfgOf cfg
     let xs ← getRatList j "xs"
-    pure <| Json.mkObj [("ys", rats (xs.map (qrelu t c))), ("min", ratToJson (qreluMin c)),
+    pure <| Json.mkObj [("ys", rats (xs.map (qreluU t c))), ("min", ratToJson (qreluMin c)),
       ("max", ratToJson (qreluMax c)),
       ("range", match qreluRange c with | some l => rats l | none => Json.null)]
+  | "qrelusig" =>
+    -- quantized_relu(use_sigmoid=1): `ss` = the surrogate values `_sigmoid(x / m_i)`
+    let c ← reluCfgOf cfg
+    let ss ← getRatList j "ss"
+    let yx ← yxOf j (fun m => qreluSigX t c noSigma m)
+    pure <| Json.mkObj [("ys", rats (ss.map (qreluSigU t c))), ("yx", yx),
+      ("min", ratToJson (qreluMin c)), ("max", ratToJson (qreluMax c)), ("range", Json.null)]
+  | "qlinear_pc" =>
+    let b ← getInt cfg "bits"
+    let i ← getInt cfg "integer"
+    let sy ← getBool cfg "symmetric"
+    let kn ← getBool cfg "keep_negative"
+    let c : LinCfg := { bits := b, integer := i, symmetric := sy, keepNeg := kn, alpha := none }
+    let as ← getRatList j "alphas"
+    let rows ← getRows j "rows"
+    pure <| Json.mkObj [("ys", Json.arr (rows.map fun r => rats (qlinearPC t c as r)).toArray),
+      ("mins", rats (qlinearMinPC c as)), ("maxs", rats (qlinearMaxPC c as)),
+      ("range_last", match qlinearRangeLast c as with | some l => rats l | none => Json.null),
+      ("range_first", Json.arr ((qlinearRangeFirst c as).map rats).toArray)]
+  | "qbits_pc" =>
+    let b ← getInt cfg "bits"
+    let i ← getInt cfg "integer"
+    let sy ← getBool cfg "symmetric"
+    let kn ← getBool cfg "keep_negative"
+    let c : BitsCfg := { bits := b, integer := i, symmetric := sy, keepNeg := kn, alpha := none }
+    let as ← getRatList j "alphas"
+    let rows ← getRows j "rows"
+    pure <| Json.mkObj [("ys", Json.arr (rows.map fun r => rats (qbitsPC t c as r)).toArray),
+      ("min", ratToJson (qbitsMin c)), ("max", ratToJson (qbitsMax c))]
   | "qlinear" =>
     let b ← getInt cfg "bits"
     let i ← getInt cfg "integer"
     let sy ← getBool cfg "symmetric"
     let kn ← getBool cfg "keep_negative"
     let al ← getOptRat cfg "alpha"
-    let c : LinCfg := { bits := b, integer := i, symmetric := sy, keepNeg := kn, alpha := al }
+    let c0 : LinCfg := { bits := b, integer := i, symmetric := sy, keepNeg := kn, alpha := al }
+    -- route "reassign-alpha": constructed with `ctor_alpha`, `alpha` assigned afterwards
+    let c : LinCfg ← match (getBool cfg "has_ctor_alpha").toOption with
+      | some true => do
+        let ca ← getOptRat cfg "ctor_alpha"
+        let o : LinObj := (LinObj.construct { c0 with alpha := ca }).setAlpha al
+        pure o.effective
+      | _ => pure c0
     let xs ← getRatList j "xs"
     pure <| Json.mkObj [("ys", rats (xs.map (qlinear t c))), ("min", ratToJson (qlinearMin c)),
       ("max", ratToJson (qlinearMax c)), ("range", rats (qlinearRange c))]
@@ -50,7 +113,8 @@ def handle (j : Json) : Except String Json := do
     let sym ← getBool cfg "symmetric"
     let ps ← getRatList j "ps"
     let m := twoPow (bits - 1)
-    pure <| Json.mkObj [("ys", rats (ps.map (qtanhP t bits sym))),
+    let yx ← yxOf j (fun md => qtanhX t bits sym noSigma md)
+    pure <| Json.mkObj [("ys", rats (ps.map (qtanhP t bits sym))), ("yx", yx),
       ("min", ratToJson (((-m + (if sym then 1 else 0) : Int) : Rat) / (m : Rat))),
       ("max", ratToJson (((m - 1 : Int) : Rat) / (m : Rat)))]
   | "qsigmoid" =>
@@ -58,7 +122,8 @@ def handle (j : Json) : Except String Json := do
     let sym ← getBool cfg "symmetric"
     let ps ← getRatList j "ps"
     let m := twoPow bits
-    pure <| Json.mkObj [("ys", rats (ps.map (qsigmoidP t bits sym))),
+    let yx ← yxOf j (fun md => qsigmoidX t bits sym noSigma md)
+    pure <| Json.mkObj [("ys", rats (ps.map (qsigmoidP t bits sym))), ("yx", yx),
       ("min", ratToJson (((if sym then 1 else 0 : Int) : Rat) / (m : Rat))),
       ("max", ratToJson (((m - 1 : Int) : Rat) / (m : Rat)))]
   | _ => throw s!"unknown op {op}"
